@@ -347,6 +347,35 @@ def _run(ctx):
             if abs(gotv - want) > abs(want) * Decimal("1e-9"):
                 ctx.violation("C18:quantify:wrong-magnitude", f"({lv.magnitude} {fname}[{rname}]).quantify() {label} gives {got.magnitude!r}, the definition gives {core.sf(want)!r}",
                               {"family": fname, "reference": rname, "when": label})
+    # ---- the quantity is read off a scale with a zero point of the program's own (gauge pressure: 0 = 101325 Pa absolute): its
+    # level above 20 uPa is the level of the ABSOLUTE pressure, for readings above and below the zero of the scale
+    state["expect"] = None
+    try:
+        pa_ = U["pascal"]
+        gauge_ = pa_.dimension.scale(101325 * pa_, f"zqc18gauge{ctx.shard}", f"zqcgg{ctx.shard}")
+        lu_spl = m.Decibel[20 * (P["micro"] * pa_)]
+        for _ in range(12 if ctx.tier == "quick" else 600):
+            absolute = rng.choice([101325.0 + 2.0, 101325.0 - 20.0, 5.0, 2.0e5, 101325.0 * 3, 0.02])
+            reading = absolute - 101325.0
+            want = Decimal(20) * (D(absolute) / D("0.00002")).ln() / Decimal(10).ln()
+            ctx.count("evaluations")
+            ctx.count("levels_of_readings_on_a_scale_with_a_zero_point")
+            ctx.distinct(("gauge", reading > 0, round(absolute)), True)
+            try:
+                with lib():
+                    q_ = m.Quantity(reading, gauge_)
+                    got = rng.choice([lambda: q_.level(lu_spl), lambda: lu_spl.level(q_)])().magnitude
+                    back = (got * lu_spl).quantify().in_unit(gauge_).magnitude
+            except Exception as e:
+                ctx.violation(f"C18:level:raised-{type(e).__name__}", f"({reading} Pa gauge, {absolute} Pa absolute).level(dB re 20 uPa): {e}", {"absolute": absolute})
+                continue
+            if abs(D(got) - want) > abs(want) * Decimal("1e-9") + Decimal("1e-7"):
+                ctx.violation("C18:level:wrong-magnitude", f"({reading} Pa on a gauge scale whose zero is 101325 Pa).level(dB re 20 uPa) = {got!r}; the absolute pressure {absolute} Pa "
+                              f"gives {core.sf(want)!r}", {"absolute": absolute})
+            elif abs(back - reading) > 1e-6 * max(abs(absolute), 1.0):
+                ctx.violation("C18:round-trip:quantity-level-quantity", f"{reading} Pa gauge -> {got!r} dB -> {back!r} Pa gauge", {"absolute": absolute})
+    except KeyError:
+        ctx.count("gauge_scale_section_skipped")
     # ---- a program registers a root-power dimension of its own (vibration: acceleration levels in dB re 1 um/s^2 count 20 dB
     # per decade) by adding to the public set measured.ROOT_POWER_DIMENSIONS - after units with such a reference exist
     state["expect"] = None
